@@ -47,6 +47,17 @@ CHECKS["C03"] = ("kv", "exploration",
     "findings (tiny capacities) are excluded by construction and re-checked by deterministic probes.",
     "DESIGN.md 4/C03")
 
+CHECKS["C15"] = ("pure", "exploration",
+    "stateful property testing (rapid) with exact big-integer/rational inequalities as oracle",
+    "Layer 1 (API level): random histories over one escrow account (active + debonding share pool, 2-5 delegators) performing exactly the calls the staking "
+    "application makes (AddEscrow, ReclaimEscrow, debonding completion, rewards with commission, slashing via the real SlashEscrow on a mock state), with pool states "
+    "from empty to 2^128 scale and fully slashed pools. After every action exact math/big inequalities are checked: minted shares and paid amounts never exceed the "
+    "pro-rata value, nobody else's redeemable value or the share price drops except by slashing, no value is created, bookkeeping sums match. Plus round-trip and "
+    "split/merge relations. Layer 2 (through the multiplexer: debonding paid exactly once at the right epoch) is exercised by the chain-engine checks C05/C10.",
+    "The application-level clauses (exactly-once payout at the first epoch transition at or after the end epoch) are observed through the chain engine, not here. "
+    "A pool with balance but no shares gives the balance to the first depositor (counted, not asserted).",
+    "DESIGN.md 4/C15")
+
 NOT_APPLICABLE = {
 }
 
